@@ -4,6 +4,6 @@ CONSTANTS
   NDocs = 4
   Vals = {1, 2}
   Sizes = {0, 1, 2, 3, 4, 5}
-  Pages <- PagesTwo
+  Pages <- PagesEvict
 INVARIANTS TypeOK Refines TallyBeforeStore FacetsAreTheMeaning CountsAreDocCounts Ordered Balanced Accounted PageOK
 CHECK_DEADLOCK FALSE
